@@ -66,6 +66,8 @@ fn in_set(set: &SmallCharSet, c: char) -> bool {
 pub fn run_history(rng: &mut Rng, nops: usize, st: &mut Stats) -> Result<usize, (String, String)> {
     let q = BufferQueue::default();
     let mut m: VecDeque<String> = VecDeque::new();
+    let q2 = BufferQueue::default();
+    let mut m2: VecDeque<String> = VecDeque::new();
     let mut log: Vec<String> = vec![];
     let mut pushed = String::new(); // everything ever pushed at the back, minus consumed — audited at the end
     macro_rules! fail {
@@ -75,8 +77,28 @@ pub fn run_history(rng: &mut Rng, nops: usize, st: &mut Stats) -> Result<usize, 
         }};
     }
     for opno in 0..nops {
-        let op = rng.below(13);
+        let op = rng.below(15);
         match op {
+            13 => {
+                // a second queue takes over / hands back the whole content
+                log.push(format!("#{opno} swap_with(second queue holding {:?})", m2));
+                q.swap_with(&q2);
+                std::mem::swap(&mut m, &mut m2);
+                st.count("op:swap_with");
+            },
+            14 => {
+                let fresh = BufferQueue::default();
+                let mut fm: VecDeque<String> = VecDeque::new();
+                for _ in 0..rng.below(3) {
+                    let s = rand_piece(rng);
+                    fresh.push_back(StrTendril::from_slice(&s));
+                    fm.push_back(s);
+                }
+                log.push(format!("#{opno} replace_with({fm:?})"));
+                q.replace_with(fresh);
+                m = fm;
+                st.count("op:replace_with");
+            },
             0 | 1 | 2 => {
                 let mut s = String::new();
                 for _ in 0..rng.below(4) {
@@ -260,6 +282,14 @@ pub fn run_history(rng: &mut Rng, nops: usize, st: &mut Stats) -> Result<usize, 
     if rest != want {
         return Err((log.iter().rev().take(10).rev().cloned().collect::<Vec<_>>().join(" ; "), format!("drained remainder {rest:?} != model {want:?}")));
     }
+    let mut rest2 = String::new();
+    while let Some(c) = q2.next() {
+        rest2.push(c);
+    }
+    let want2: String = m2.iter().map(|s| s.as_str()).collect();
+    if rest2 != want2 {
+        return Err((log.iter().rev().take(10).rev().cloned().collect::<Vec<_>>().join(" ; "), format!("second queue (swap_with partner) drained to {rest2:?}, model {want2:?}")));
+    }
     Ok(nops)
 }
 
@@ -310,7 +340,7 @@ pub fn run(args: &Args) -> (Meta, Stats) {
     });
     let mut m = super::meta(
         args,
-        "random interleavings of push_back / push_front / next / peek / pop_except_from / eat / pop_front / is_empty over random partitions of text (every character below 64, multi-byte characters incl. those whose encodings end in 0x80/0xBF placed next to set members, runs of up to 40 characters, look-ahead keywords split across 1-4 buffers), random SmallCharSets (the tokenizer's sets and arbitrary 64-bit sets), exact and ASCII-case-insensitive comparators; every return value is compared with a VecDeque<String> model (eat decided on the concatenation) and the drained remainder must equal the model (nothing lost, duplicated or reordered). The harness is also built with debug assertions in the 'checked' profile and run under Miri/ASan by the sanitizer legs. Each history is a distinct case (hash = its seed).",
+        "random interleavings of push_back / push_front / next / peek / pop_except_from / eat / pop_front / is_empty / swap_with / replace_with over random partitions of text (every character below 64, multi-byte characters incl. those whose encodings end in 0x80/0xBF placed next to set members, runs of up to 40 characters, look-ahead keywords split across 1-4 buffers), random SmallCharSets (the tokenizer's sets and arbitrary 64-bit sets), exact and ASCII-case-insensitive comparators; every return value is compared with a VecDeque<String> model (eat decided on the concatenation) and the drained remainder must equal the model (nothing lost, duplicated or reordered). The harness is also built with debug assertions in the 'checked' profile and run under Miri/ASan by the sanitizer legs. Each history is a distinct case (hash = its seed).",
         &["the empty pattern is not exercised (eat on an empty queue returns need-more before looking at the pattern)"],
     );
     if !sanit {
